@@ -208,19 +208,19 @@ func (e *decryptPlugin) PostReadCallBody(ctx erpc.ReadCtx) *erpc.Status {
 	var bodyBytes []byte
 	var err error
 
-	if len(version) > 0 {
-		if version != e.version {
-			return erpc.NewStatus(
-				e.statCode,
-				"decrypt ciphertext error",
-				fmt.Sprintf("inconsistent encryption version, get:%q, want:%q", obj.GetCipherversion(), e.version),
-			)
-		}
-		ciphertext := obj.GetCiphertext()
-		bodyBytes, err = goutil.AESDecrypt(e.cipherkey, goutil.StringToBytes(ciphertext))
-		if err != nil {
-			return erpc.NewStatus(e.statCode, "decrypt ciphertext error", err.Error())
-		}
+	// an envelope without a matching cipher version (also an empty one) does not
+	// come from a holder of this key
+	if version != e.version {
+		return erpc.NewStatus(
+			e.statCode,
+			"decrypt ciphertext error",
+			fmt.Sprintf("inconsistent encryption version, get:%q, want:%q", obj.GetCipherversion(), e.version),
+		)
+	}
+	ciphertext := obj.GetCiphertext()
+	bodyBytes, err = goutil.AESDecrypt(e.cipherkey, goutil.StringToBytes(ciphertext))
+	if err != nil {
+		return erpc.NewStatus(e.statCode, "decrypt ciphertext error", err.Error())
 	}
 
 	ctx.Swap().Delete(encrypt_rawbody)
